@@ -63,6 +63,12 @@ def run(rep, work, tier, seed, only=None):
                                                         % (bad, ob['batch_le'][bad], ob['cases'][bad]['le']))),
                           {'instance': key, 'error': {'x': ob['cases'][bad]['x'], 'z': ob['cases'][bad]['z']},
                            'what': 'batch row differs', 'stack': [[o['x'], o['z']] for o in ob['cases']]})
+        if ob.get('after_props_diff'):
+            d = ob['after_props_diff'][0]
+            rep.violation(dict(key, site='query-after-reading-properties'),
+                          '%s: the error X%s Z%s was judged %s; after the properties of the code object (d, k, n, matrices, masks) were read '
+                          'the same object judges it %s' % (rec['tag'], d['x'], d['z'], d['before'], d['after']),
+                          {'instance': key, 'error': {'x': d['x'], 'z': d['z']}, 'what': 'history: query; read d, k, n, ...; query', 'detail': d})
         if ob.get('run_once_diff'):
             d = ob['run_once_diff'][0]
             rep.violation(dict(key, site='run_once'),
